@@ -34,6 +34,8 @@ func main() {
 	switch os.Args[1] {
 	case "check":
 		os.Exit(check(repo, verif, os.Args[2], os.Args[3]))
+	case "obls":
+		os.Exit(obls(repo, os.Args[2]))
 	case "manifest":
 		na := map[string]string{}
 		if b, err := os.ReadFile(verif + "/not_applicable.json"); err == nil {
@@ -112,14 +114,49 @@ func check(repo, verif, id, tier string) (code int) {
 	}
 	c := eng.NewCtx(id, p)
 	pr.Run(c, tier == "thorough")
+	var extra map[string]any
+	if tier == "thorough" {
+		extra = map[string]any{}
+		baseOpen := map[string]bool{}
+		for _, o := range c.Obls {
+			if o.Status != eng.Discharged {
+				baseOpen[o.Key()] = true
+			}
+		}
+		// (a) second build configuration: linux/386 selects the build-tagged siblings
+		// (raft vars_32bit.go etc.); its open obligations count like any other
+		v, err := runObls(repo, id, "OBSA_GOARCH=386")
+		if err != nil || v.Status != "ok" {
+			msg := ""
+			if err != nil {
+				msg = err.Error()
+			} else {
+				msg = v.Status + ": " + v.Msg
+			}
+			return eng.FailHard(verif, id, tier, seed, time.Since(t0).Seconds(), "linux/386 configuration could not be analysed: "+msg)
+		}
+		n386 := 0
+		for _, op := range v.Open {
+			if !baseOpen[op.Key] {
+				n386++
+				c.AddOpen(op.Key, op.Status, op.Clause, op.Pos, "[linux/386 build configuration] "+op.Fact)
+			}
+		}
+		extra["configurations"] = []map[string]any{
+			{"goos": "linux", "goarch": "amd64", "packages": p.NPkgs, "functions": len(p.Funcs), "obligations": len(c.Obls) - n386},
+			{"goos": "linux", "goarch": "386", "packages": v.NPkgs, "functions": v.NFuncs, "obligations": v.Total, "open_only_here": n386},
+		}
+		// (b) checker self-test on overlays of the current tree
+		extra["selftest"] = selftest(repo, verif, id, baseOpen)
+	}
 	return c.Finish(verif, tier, seed, time.Since(t0).Seconds(),
 		pr.Explanation+" NOT DECIDED: "+pr.NotDecided,
 		[]string{
 			"go/types, go/ssa (golang.org/x/tools v0.50.0) model the program faithfully; reflection, unsafe, cgo and out-of-process plugins are outside the model",
 			"CFG paths over-approximate executions; only facts tested on identical SSA operands are correlated",
 			"standard library and third-party libraries (crypto/cipher, bbolt, hashicorp/raft) behave as documented",
-			"linux/amd64 build configuration without extra build tags, non-test files",
-		}, nil)
+			"linux/amd64 build configuration without extra build tags, non-test files (thorough: also linux/386)",
+		}, extra)
 }
 
 func dump(p *eng.Prog, fn *ssa.Function) {
